@@ -109,6 +109,8 @@ MUTANTS = [
     ("island field takes the component index", "AegeanTools/source_finder.py",
      "            source.island = isle_num\n            source.source = j",
      "            source.island = j\n            source.source = j", "C03-R2"),
+    ("RA wrapped before the rounding (seed C03d)", "AegeanTools/angle_tools.py",
+     "    h %= 24\n", "    h = h\n", "C03-R12"),
 ]
 TWINS = [
     ("stride reordered", "AegeanTools/source_finder.py",
@@ -131,6 +133,10 @@ def run(ctx):
     r8(ctx, prog)
     r9(ctx, prog)
     r11(ctx, prog)
+    # the strings agree with the decimal coordinates: formatter rules shared
+    # with C17 (quantise before splitting, hours mod 24 after rounding)
+    from .c17 import sexagesimal
+    sexagesimal(ctx, prog, prog.module("angle_tools"), R4="C03-R12", R5="C03-R13")
     # ---------------------------------------------------------------- R10
     g = callgraph.build(prog)
     reach = callgraph.reachable(g, [PKG + "." + d for d in DRIVERS])
